@@ -70,7 +70,7 @@ fn main() {
     eng.assume("SAUCE records handed to update_sauce_data carry the current buffer size (Buffer::set_size keeps sauce.buffer_size in step, so a record with a foreign size is outside the editor's own invariant)");
     eng.assume("release profile semantics (overflow-checks off, debug-assertions off); an operation that panics or returns Err ends the history and is not a C08 violation");
 
-    // culprit operations confirmed as open known findings are removed from the alphabet of the bulk part
+    // culprit operations confirmed as open known findings are removed from the alphabet of the bulk and flip_histories parts
     // (finding ids c08.culprit.<Kind> or c08.culprit.<Kind>.<class>)
     let mut avoid: Vec<String> = Vec::new();
     let mut total_w = 0u32;
@@ -85,7 +85,7 @@ fn main() {
     }
     eng.extra(
         "steered_away",
-        json!({"part": "bulk", "kinds_removed_from_alphabet": avoid, "share_of_generated_operations": avoided_w as f64 / total_w as f64,
+        json!({"parts": "bulk, flip_histories", "kinds_removed_from_alphabet": avoid, "share_of_generated_operations": avoided_w as f64 / total_w as f64,
                "note": "the parts exhaustive_short and histories keep the full alphabet; failures of known culprits are counted there as excluded_known"}),
     );
     eng.extra("alphabet_kinds", json!(alphabet(1).iter().map(|(_, k, _)| *k).collect::<Vec<_>>()));
